@@ -36,8 +36,39 @@ pub fn clear(fd: i32) {
 /// number of read calls of this thread that were failed by the seam
 pub fn hits() -> u64 { HITS.try_with(|h| h.get()).unwrap_or(0) }
 
+thread_local! {
+  /// (mode, parameter, bytes handed out so far, calls so far, faults applied) — see `arm_file_reads`
+  static FILE_PLAN: Cell<(u8, u32, u64, u64, u64)> = const { Cell::new((0, 0, 0, 0, 0)) };
+}
+/// Storage faults for a file the code under test reads on this thread (armed around one load):
+/// mode 1 = every read returns at most `param` bytes (short counts), 2 = the read fails with EIO
+/// once `param` bytes have been handed out, 3 = every `param`-th read is interrupted (EINTR) before
+/// it transfers anything, 4 = short counts and interruptions together.
+pub fn arm_file_reads(mode: u8, param: u32) { let _ = FILE_PLAN.try_with(|c| c.set((mode, param.max(1), 0, 0, 0))); }
+/// ends the plan; returns how many reads it shortened, failed or interrupted
+pub fn disarm_file_reads() -> u64 { FILE_PLAN.try_with(|c| { let v = c.get(); c.set((0, 0, 0, 0, 0)); v.4 }).unwrap_or(0) }
+
 #[no_mangle]
 pub unsafe extern "C" fn read(fd: libc::c_int, buf: *mut libc::c_void, count: libc::size_t) -> libc::ssize_t {
+  if let Ok((mode, param, given, calls, hits)) = FILE_PLAN.try_with(|c| c.get()) {
+    if mode != 0 && fd > 2 && count > 0 {
+      let calls = calls + 1;
+      if (mode == 3 || mode == 4) && calls % (param as u64 + 1) == 0 {
+        let _ = FILE_PLAN.try_with(|c| c.set((mode, param, given, calls, hits + 1)));
+        *libc::__errno_location() = libc::EINTR;
+        return -1;
+      }
+      if mode == 2 && given >= param as u64 {
+        let _ = FILE_PLAN.try_with(|c| c.set((mode, param, given, calls, hits + 1)));
+        *libc::__errno_location() = libc::EIO;
+        return -1;
+      }
+      let cap = match mode { 1 | 4 => (param as usize).min(count), 2 => ((param as u64 - given) as usize).min(count), _ => count };
+      let r = libc::syscall(libc::SYS_read, fd, buf, cap) as libc::ssize_t;
+      let _ = FILE_PLAN.try_with(|c| c.set((mode, param, given + r.max(0) as u64, calls, hits + (cap < count) as u64)));
+      return r;
+    }
+  }
   let mut eof_errno = 0;
   if fd >= 0 {
     if let Ok(a) = FAULTS.try_with(|c| c.get()) {
